@@ -29,6 +29,12 @@
 // vstd's BTreeSet specification needs an order law for the key type that it does not ship for Vec<L>
 pub uninterp spec fn skipped_view<L>(s: SkippedSet<L>) -> Set<Seq<L>>;
 #[verifier::external_body]
+fn verif_skipped_new<L: Ord>() -> (r: SkippedSet<L>)
+    ensures skipped_view(r) == Set::<Seq<L>>::empty(),
+{
+    SkippedSet::<L>::new()
+}
+#[verifier::external_body]
 fn verif_skipped_insert<L: Clone + Ord>(set: &mut SkippedSet<L>, pattern: &[L]) -> (r: bool)
     ensures skipped_view(*final(set)) == skipped_view(*old(set)).insert(pattern@),
         r == !skipped_view(*old(set)).contains(pattern@),
@@ -53,6 +59,7 @@ impl EdgeLabel for char {
 }
 
 //@include ghost_trie.rs
+//@include ghost_reach.rs
 
 //@impl src/nfa_builder.rs impl<L, V> NfaBuilder<L, V>
 //@fn child_id
@@ -65,16 +72,29 @@ impl EdgeLabel for char {
 //@start{
     broadcast use vstd::std_specs::btree::group_btree_axioms;
 //@}
+//@fn new
+//@rules R9 R12x R21
+//@ret r
+//@head{
+    ensures add_inv(r), reach_ok(r), r.len == 0, r.match_kind == match_kind, r.states@.len() == 2,
+        forall|q: Seq<L>| !seen(r, q),
+//@}
+//@start{
+    proof { reveal(reach_ok); }
+//@}
 //@fn add
 //@rules R9 R11 R14 R5
 //@ret r
 //@head{
-    requires add_inv(*old(self)), vstd::std_specs::btree::key_obeys_cmp_spec::<L>(),
+    requires add_inv(*old(self)), reach_ok(*old(self)), vstd::std_specs::btree::key_obeys_cmp_spec::<L>(),
         byte_len(pattern@) <= isize::MAX, old(self).len < usize::MAX, old(self).states@.len() <= u32::MAX as nat + 1
     ensures final(self).match_kind == old(self).match_kind,
         match r {
             Ok(_) => {
                 &&& add_inv(*final(self)) && final(self).states@.len() <= u32::MAX as nat + 1
+                &&& reach_ok(*final(self))
+                // shadowed patterns (leftmost-first, an earlier-registered proper prefix) are recorded but not counted
+                &&& final(self).len == old(self).len + (if add_shadowed(*old(self), pattern@) { 0int } else { 1int })
                 &&& pattern@.len() > 0 && !seen(*old(self), pattern@)
                 &&& forall|q: Seq<L>| #[trigger] seen(*final(self), q) <==> (seen(*old(self), q) || q == pattern@)
             },
@@ -118,12 +138,13 @@ impl EdgeLabel for char {
         assert(pattern_len@ == byte_len(pat));
         assert(pat.len() > 0) by { if pat.len() == 0 { assert(byte_len(pat) == 0); } }
         lemma_add_mid_init(n0, pat);
+        lemma_reach_mid_init(n0, pat);
     }
 //@}
 //@loopiter 2 it2
 //@loop 2{
     invariant pat == pattern@, add_inv(n0), n0 == *old(self), vstd::std_specs::btree::key_obeys_cmp_spec::<L>(),
-        add_mid(n0, *self, pat, it2.index@ as int, state_id as int),
+        add_mid(n0, *self, pat, it2.index@ as int, state_id as int), reach_mid(n0, *self, pat, it2.index@ as int), reach_ok(n0),
         self.match_kind == n0.match_kind, self.len == n0.len, self.skipped == n0.skipped,
         (state_id as int) < n0.states@.len() ==> *self == n0,
         n0.match_kind is LeftmostFirst ==> forall|k: int| 0 <= k < it2.index@ ==> !#[trigger] is_registered(n0, pat.take(k)),
@@ -155,6 +176,7 @@ impl EdgeLabel for char {
     proof {
         assert(*self == cur);
         lemma_add_mid_follow(n0, cur, pat, i, sid0, next_state_id as int);
+        lemma_reach_mid_follow(n0, cur, pat, i);
         reveal(add_mid);
     }
 //@}
@@ -163,6 +185,7 @@ impl EdgeLabel for char {
         assert(extended(cur, *self, sid0, c));
         assert(same_rest(cur, *self));
         lemma_add_mid_extend(n0, cur, *self, pat, i, sid0);
+        lemma_reach_mid_extend(n0, cur, *self, pat, i, sid0);
     }
 //@}
 //@before 1 let output = &mut self.states[usize::from_u32(state_id)].output;{
@@ -184,19 +207,20 @@ impl EdgeLabel for char {
             if !(n0.match_kind is LeftmostFirst) { }
         }
         lemma_add_finish_ok(n0, cur, *self, pat, sid, (value, pattern_len));
+        lemma_reach_finish(n0, cur, *self, pat, sid, (value, pattern_len));
     }
 //@}
 //@fn skip_shadowed
 //@rules R9 R11 R5 R21
 //@ret r
 //@head{
-    requires add_inv(*old(self)), vstd::std_specs::btree::key_obeys_cmp_spec::<L>(), old(self).match_kind is LeftmostFirst,
+    requires add_inv(*old(self)), reach_ok(*old(self)), vstd::std_specs::btree::key_obeys_cmp_spec::<L>(), old(self).match_kind is LeftmostFirst,
         pattern@.len() > 0,
         exists|k: int| 0 <= k < pattern@.len() && is_registered(*old(self), pattern@.take(k))
     ensures final(self).match_kind == old(self).match_kind, final(self).states@ == old(self).states@, final(self).len == old(self).len,
         match r {
             Ok(_) => {
-                &&& add_inv(*final(self)) && !seen(*old(self), pattern@)
+                &&& add_inv(*final(self)) && reach_ok(*final(self)) && !seen(*old(self), pattern@)
                 &&& forall|q: Seq<L>| #[trigger] seen(*final(self), q) <==> (seen(*old(self), q) || q == pattern@)
             },
             Err(e) => e is DuplicatePattern && seen(*old(self), pattern@),
@@ -257,6 +281,7 @@ impl EdgeLabel for char {
         assert forall|t: int| 0 <= t < n0.states@.len() implies #[trigger] t_edges(fin, t) == t_edges(n0, t) by { }
         assert(trie_ok(n0));
         assert(trie_ok(fin));
+        lemma_reach_same_states(n0, fin);
     }
 //@}
 //@endimpl
